@@ -418,6 +418,10 @@ def const_eval(t: T, env: Optional[Dict[T, object]] = None):
                     return isinstance(ev(x.args[1][0]), tuple(pyt[n_]
                                                      for n_ in names))
             args = [ev(a) for a in x.args[1]]
+            if n in ("builtins.max", "builtins.min", "builtins.abs") and \
+                    args and not x.args[2]:
+                return {"builtins.max": max, "builtins.min": min,
+                        "builtins.abs": abs}[n](*args)
             if n == "builtins.len":
                 return len(args[0])
 
